@@ -314,6 +314,20 @@ def discharge(ob, timeout_ms=10000, slice_first=False):
         if r != z3.unknown:
             s = s2
             solver = "z3(qi.eager_threshold=100)"
+    if r == z3.unknown and not os.environ.get("PYVC_NO_SECOND_CHANCE"):
+        # last stage: the same query once more with three times the budget.  A proof that takes 7 s on an idle machine can
+        # run out of a 10 s stage when all cores are busy (the C11 check runs 145 functions at once); a verdict must not
+        # flip for that reason.
+        s3 = z3.Solver()
+        s3.set("timeout", 3 * timeout_ms)
+        s3.set("qi.eager_threshold", 100.0)
+        for c in ob.pc:
+            s3.add(c)
+        s3.add(z3.Not(ob.goal))
+        r = s3.check()
+        if r != z3.unknown:
+            s = s3
+            solver = "z3(qi.eager_threshold=100, 3x budget)"
     verdict = "discharged" if r == z3.unsat else ("refuted" if r == z3.sat else "unknown")
     model = None
     if r == z3.sat:
